@@ -43,14 +43,14 @@ type cpReport struct {
 }
 
 type markerWriter struct {
-	mu       sync.Mutex
-	buf      []byte
-	markers  []string
-	trigger  string
-	need     int
-	seen     int
-	fire     func()
-	fired    bool
+	mu      sync.Mutex
+	buf     []byte
+	markers []string
+	trigger string
+	need    int
+	seen    int
+	fire    func()
+	fired   bool
 }
 
 func (w *markerWriter) Write(p []byte) (int, error) {
